@@ -245,3 +245,74 @@ def zero_history(tid, seed, nvars):
     tr.to_expr_rt(1)
     tr.to_expr_rt(-1)
     return tr
+
+
+# ============ very wide supports (40-70 variables): the counting LAWS, judged by TraceBig ============
+def limbs(x):
+    """Natural number -> little-endian base-10000 limbs (zero = [])."""
+    out = []
+    while x:
+        out.append(int(x % 10000))
+        x //= 10000
+    return out
+
+
+def big_count_trace(tid, seed):
+    import json as _json
+    from harness.adapter import _bdd as _B
+    rng = random.Random(seed)
+    nv = rng.randint(56, 70)
+    names = ['w%d' % i for i in range(nv)]
+    b = _B.BDD()
+    for nm in names:
+        b.add_var(nm)
+    events = []
+
+    def chain(kind, vs):
+        r = b.var(vs[0])
+        for nm in vs[1:]:
+            r = b.apply({'and': 'and', 'or': 'or', 'xor': 'xor'}[kind], r, b.var(nm))
+        return r
+    cases = []
+    for kind in ('or', 'and', 'xor', 'or', 'xor'):
+        k = rng.randint(54, nv)
+        cases.append((kind, rng.sample(names, k)))
+    for _ in range(4):       # products of sums over disjoint blocks: no closed form, laws only
+        vs = rng.sample(names, rng.randint(54, nv))
+        cases.append(('mixed', vs))
+    for kind, vs in cases:
+        k = len(vs)
+        if kind == 'mixed':
+            blocks = [vs[i:i + 3] for i in range(0, k, 3)]
+            u = 1
+            for bl in blocks:
+                t = chain(rng.choice(['or', 'xor', 'and']), bl)
+                u = b.apply('and', u, t * rng.choice([1, 1, -1]))
+        else:
+            u = chain(kind, vs)
+        b.incref(u)
+        sup = len(b.support(u))
+        n = sup + rng.choice([0, 1, 3])
+        ev = dict(op='count', kind=kind, k=sup, n=n, cu=[], cnu=[], cu1=[], exc='', nvars=nv)
+        try:
+            ev['cu'] = limbs(b.count(u, n))
+            ev['cnu'] = limbs(b.count(-u, n))
+            ev['cu1'] = limbs(b.count(u, n + 1))
+        except Exception as e:   # noqa
+            ev['exc'] = type(e).__name__
+        events.append(ev)
+        b.decref(u)
+    return dict(t=tid, meta=dict(driver='big_count', nvars=nv), events=events)
+
+
+def big_count_task(shard, tid0, seed, ntraces):
+    import json as _json
+    n = 0
+    fps = set()
+    with open(shard, 'w') as f:
+        for i in range(ntraces):
+            tr = big_count_trace(tid0 + i, seed * 131 + i)
+            f.write(_json.dumps(tr, separators=(',', ':')) + '\n')
+            n += len(tr['events'])
+            fps |= {('bigcount', e['kind'], e['k'], e['n']) for e in tr['events']}
+    return dict(shard=shard, traces=ntraces, events=n, fingerprints=fps, samples=[])
